@@ -574,6 +574,8 @@ func (e *Exec) makeSlice(t types.Type, n, c *Term) Value {
 				e.goPanic("runtime error: makeslice: len out of range")
 			}
 			e.handleLimit("oob", fmt.Sprintf("make([]byte, n) with n possibly > %d at %s", max, e.curSite()))
+		} else if !ok {
+			max = e.tightBound(c, max)
 		}
 		e.workAlloc = tb.Bin(OpAdd, e.workAlloc, c)
 		o := e.newObj(BArr{tb.ConstArr(), -1}, nil, "make")
